@@ -784,7 +784,8 @@ FlushStep(s, e) ==
    arm stays suspended there: fl) *)
 SendStage(a2, e, gs, gf) ==
   IF a2.task[e].ph # "run" THEN a2
-  ELSE LET f0 == IF a2.fl[e] THEN (IF gf = 1 THEN FlushStep(a2, e) ELSE a2) ELSE a2 IN
+  (* a sink that has failed reports it at once, whether or not it would have had time to flush *)
+  ELSE LET f0 == IF a2.fl[e] THEN (IF gf = 1 \/ a2.sink[e] # "open" THEN FlushStep(a2, e) ELSE a2) ELSE a2 IN
        IF f0.task[e].ph # "run" \/ f0.fl[e] THEN f0
        ELSE IF f0.sink[e] \in {"cut", "closed"} THEN BeginWd(f0, e, FALSE, "ws")
        ELSE IF gs = 1 /\ f0.outq[e] # <<>>
